@@ -419,3 +419,97 @@ Ltac cc_safe_tac f :=
   intros min_s min_r max_s nlive; cbv beta delta [f]; cbv zeta; intro H; split_ifs; try discriminate; lia.
 Lemma check_configuration_safe : P_cc_safe check_configuration.
 Proof. unfold P_cc_safe. cc_safe_tac check_configuration. Qed.
+
+(* =========================================================================================== *)
+(** * (iv) data-loader batch sizes *)
+Lemma cbs_loop_bounds : forall fuel n bs m b, cbs_loop fuel n bs m = Some b -> 2 <= b /\ b < bs.
+Proof.
+  induction fuel as [|f IH]; intros n bs m b H; cbn [cbs_loop] in H; [discriminate|].
+  destruct (bs - 1 <? 2) eqn:E1; [discriminate|].
+  destruct ((n mod (bs - 1) =? 0) || (n mod (bs - 1) >=? m)) eqn:E2.
+  - inversion H; subst. lia.
+  - destruct ((bs - 1 <=? m) && (n mod (bs - 1) >? 1)) eqn:E3.
+    + inversion H; subst. lia.
+    + apply IH in H. lia.
+Qed.
+
+Definition P_check_batch_size := forall n bs b, check_batch_size n bs = Some b -> 1 <= bs -> 2 <= b /\ b <= bs.
+Lemma check_batch_size_bounds : P_check_batch_size.
+Proof.
+  intros n bs b H Hbs. unfold check_batch_size in H.
+  destruct (bs =? 1) eqn:E1; [discriminate|]. destruct (bs =? 0) eqn:E0; [discriminate|].
+  destruct (negb (n mod bs =? 0) && (n mod bs <? bs / 10)) eqn:E.
+  - apply cbs_loop_bounds in H. lia.
+  - inversion H; subst. lia.
+Qed.
+
+(* the obligation the REGENERATED validation-batch-size expression must meet *)
+Definition P_val_loader (f : Z -> Z -> option Z) :=
+  forall n_val bs, 0 <= n_val -> 1 <= bs -> loader_ok (f n_val bs).
+Ltac val_loader_tac f :=
+  intros n_val bs Hn Hb; cbv beta delta [f loader_ok]; cbv zeta; split_ifs; try exact I; lia.
+Lemma val_batch_size_ok : P_val_loader val_batch_size.
+Proof. unfold P_val_loader. val_loader_tac val_batch_size. Qed.
+
+Lemma loader_okb_ok : forall o, loader_okb o = true -> loader_ok o.
+Proof. intros [b|] H; cbn in *; [lia|exact I]. Qed.
+
+(* every accepted configuration reaches both DataLoaders with None or a positive batch size *)
+Definition P_loader_batch_sizes :=
+  forall vbs n_train n_val s b v, data_loaders vbs n_train n_val s = Some (b, v) ->
+    match s with BSint b0 => 1 <= b0 | BSall => 1 <= n_train | BSother => True end ->
+    2 <= b /\ loader_ok v.
+Lemma loader_batch_sizes : P_loader_batch_sizes.
+Proof.
+  intros vbs n_train n_val s b v H Hs. unfold data_loaders in H.
+  destruct (resolve_batch_size s n_train) as [bs0|] eqn:Er; [|discriminate].
+  destruct (check_batch_size n_train bs0) as [b1|] eqn:Ec; [|discriminate].
+  destruct (loader_okb (vbs n_val b1)) eqn:El; [|discriminate].
+  inversion H; subst. split.
+  - assert (1 <= bs0) by (destruct s; cbn in Er; inversion Er; subst; auto; discriminate).
+    pose proof (check_batch_size_bounds _ _ _ Ec H0). lia.
+  - apply loader_okb_ok. exact El.
+Qed.
+
+(* with a validation-batch-size expression that meets P_val_loader nothing is rejected at the loader:
+   the loader test in data_loaders never fires *)
+Definition P_loader_never_rejects :=
+  forall vbs, P_val_loader vbs -> forall n_train n_val s b,
+    resolve_batch_size s n_train = Some b -> 1 <= b -> 0 <= n_val ->
+    forall b', check_batch_size n_train b = Some b' -> data_loaders vbs n_train n_val s = Some (b', vbs n_val b').
+Lemma loader_never_rejects : P_loader_never_rejects.
+Proof.
+  intros vbs Hv n_train n_val s b Hr Hb Hn b' Hc. unfold data_loaders. rewrite Hr, Hc.
+  pose proof (check_batch_size_bounds _ _ _ Hc Hb) as Hb'.
+  assert (Hl : loader_ok (vbs n_val b')) by (apply Hv; lia).
+  destruct (vbs n_val b') as [x|]; cbn in *; [|reflexivity].
+  destruct (1 <=? x) eqn:E; [reflexivity|lia].
+Qed.
+
+(* =========================================================================================== *)
+(** * (v) reductions are never applied to an empty batch *)
+Lemma guarded_sound : forall p ne size o k,
+  guarded p ne = true -> (ne = true -> (1 <= size)%nat) -> exec_pass p size o k <> RError.
+Proof.
+  induction p as [|e r IH]; intros ne size o k H Hs; cbn [exec_pass]; [discriminate|].
+  destruct e; cbn [guarded] in H.
+  - apply (IH false); [exact H|discriminate].
+  - destruct (Nat.eqb size 0) eqn:E; [discriminate|].
+    apply (IH true); [exact H|]. intros _. apply Nat.eqb_neq in E. lia.
+  - apply andb_true_iff in H. destruct H as (Hne & H). subst ne.
+    specialize (Hs eq_refl). destruct (Nat.eqb size 0) eqn:E; [apply Nat.eqb_eq in E; lia|].
+    apply (IH true); [exact H|auto].
+Qed.
+
+Definition P_reductions_guarded :=
+  forall ps, paths_guarded ps = true -> forall p, In p ps -> forall size o, exec_pass p size o 0%nat <> RError.
+Lemma reductions_guarded : P_reductions_guarded.
+Proof.
+  intros ps H p Hp size o. unfold paths_guarded in H. rewrite forallb_forall in H.
+  apply (guarded_sound p false); [apply H; exact Hp|discriminate].
+Qed.
+
+(* and an unguarded reduction really fails on some batch *)
+Definition P_unguarded_fails := exists o, exec_pass [LShrink; LReduce] 5%nat o 0%nat = RError.
+Lemma unguarded_fails : P_unguarded_fails.
+Proof. exists (fun _ => 0%nat). reflexivity. Qed.
